@@ -256,26 +256,26 @@ class HitResult:
         def find_begin_danger(row_num: int) -> TrajectoryData:
             """
             Beginning of danger space is last .distance' < .distance where
-                (.drop' - target_center) >= target_height/2
+                |.drop' - target_center| >= target_height/2
             :param row_num: Index of the trajectory point for which we are calculating danger space
             :return: Distance marking beginning of danger space
             """
             center_row = self.trajectory[row_num]
             for prime_row in reversed(self.trajectory[:row_num]):
-                if (prime_row.target_drop.raw_value - center_row.target_drop.raw_value) >= target_height_half:
+                if abs(prime_row.target_drop.raw_value - center_row.target_drop.raw_value) >= target_height_half:
                     return prime_row
             return self.trajectory[0]
 
         def find_end_danger(row_num: int) -> TrajectoryData:
             """
             End of danger space is first .distance' > .distance where
-                (target_center - .drop') >= target_height/2
+                |target_center - .drop'| >= target_height/2
             :param row_num: Index of the trajectory point for which we are calculating danger space
             :return: Distance marking end of danger space
             """
             center_row = self.trajectory[row_num]
             for prime_row in self.trajectory[row_num + 1:]:
-                if (center_row.target_drop.raw_value - prime_row.target_drop.raw_value) >= target_height_half:
+                if abs(center_row.target_drop.raw_value - prime_row.target_drop.raw_value) >= target_height_half:
                     return prime_row
             return self.trajectory[-1]
 
